@@ -9,8 +9,11 @@
   script-level rule — property C01 — not part of this acceptance predicate.)
 
   Group elements are written with the reference functions of Base/Secp; the sum is written
-  u2·Q + u1·G (the group is commutative; commutativity of `Secp.add` as a function is part of the
-  group law, property C08, and is not re-proved here).
+  u2·Q + u1·G (the group is commutative; commutativity of `Secp.add` is part of the group law, proved
+  in Proofs/C03Curve.lean — `Props.C03.reference_curve_group_law`).
+
+  LENGTHS: the message argument is the integer its bytes spell, whatever their number (the code does
+  `Number.SetBytes(msg)`); callers pass 32-byte hashes. The predicate is about that integer.
 -/
 import GocoinV.Base.Secp
 namespace GocoinV.Spec.Ecdsa
